@@ -359,8 +359,8 @@ func checkSeeks(c *tablegen.Case, data []byte, dec *fmtspec.Table, wantRefs, wan
 			if err != nil {
 				return err
 			}
+			var r reftable.RefRecord // one record, reused (see hx.ScanRefs)
 			for len(got) < limit {
-				var r reftable.RefRecord
 				ok, err := it.NextRef(&r)
 				if err != nil {
 					return err
@@ -448,8 +448,8 @@ func checkSeeks(c *tablegen.Case, data []byte, dec *fmtspec.Table, wantRefs, wan
 			if err != nil {
 				return err
 			}
+			var l reftable.LogRecord // one record, reused
 			for len(got) < limit {
-				var l reftable.LogRecord
 				ok, err := it.NextLog(&l)
 				if err != nil {
 					return err
